@@ -40,6 +40,8 @@ def scalar_items(tier: str, seed: int, sizes_quick: Dict[int, int], sizes_thorou
         add(fam, term)
     for fam, term in G.same_field_chains():
         add(fam, term)
+    for fam, term in G.real_family():
+        add(fam, term)
     before = len(items)
     for fam, term in G.deep_bool((2, 3, 4) if quick else (2, 3, 4), G.bool_atoms(), rng, {3: 160, 4: 90} if quick else {4: 1200}):
         add(fam, term)
